@@ -229,6 +229,7 @@ func (e *Engine) callFn(st *State, x *ssa.Call, fn *ssa.Function, bind []Value, 
 			}
 			where := e.pos(x.Pos())
 			e.AssertSites[where]++
+			st.sawAssert = true
 			if c.IsConst() {
 				if !c.boolVal() {
 					e.Asserts++
